@@ -208,6 +208,9 @@ func main() {
 		fail("go test -c failed: %v\n%s", err, tail)
 	}
 
+	if os.Getenv("C35_BUILD_ONLY") != "" { // setup.sh: warm the build cache only
+		os.Exit(0)
+	}
 	// 4. run
 	run := exec.Command(out, "-test.run", "^TestVerifC35$", "-test.timeout", "0")
 	run.Dir = root
